@@ -2,6 +2,7 @@
 import io
 import json
 import os
+import pathlib
 import shutil
 import tempfile
 
@@ -23,12 +24,19 @@ LEVEL_NOTE = (
 RULE = (
     "seeded generator by input class (operator via dict+JSON text / via file, single and sets / via printed "
     "text; measurements; expectation values; parities; value estimates; lists; layers-connectivity-ordering; "
-    "nmeas estimates; raw arrays); coefficients int/float/complex/zero-imaginary/-0.0/1e-300..9.9e14/"
-    "exponent-format/purely imaginary, constants, empty sum, multi-digit qubit indices, duplicate and "
-    "zero-coefficient terms; loaders are given a path, an open file or a StringIO. Non-trivial: operator "
-    "with >=2 terms and at least one of {non-real coefficient, constant term, multi-digit index, "
-    "exponent-format/tiny/large coefficient}; artefact with >=2 elements and at least one optional part "
-    "(frames, complex values, precision, nesting). distinct = distinct canonical case strings"
+    "nmeas estimates; raw arrays; histories on one operator / one artefact object); coefficients int/float/"
+    "complex/zero-imaginary/-0.0/1e-300..9.9e14/exponent-format/purely imaginary/numpy float64 and complex128, "
+    "constants, empty sum, multi-digit qubit indices, duplicate and zero-coefficient terms, the identical term "
+    "object twice, sums built from tuples; integer arrays and tallies beyond 2**53 up to the int64 limits "
+    "and narrow dtypes; savers annotated AnyPath are given str / pathlib / bytes paths (also non-ASCII names), "
+    "loaders a path, a caller-opened file (default, utf-8, ascii, latin-1) or a StringIO. Histories: observe "
+    "(convert / save / save a set with identical, equal and term-sharing members / print+parse), then reassign a "
+    "public attribute (term.coefficient, sum.terms, bitstrings, values, frames, precision, layers, ...), modify "
+    "it or an earlier returned dictionary / loaded object in place, observe again (same or another path), "
+    "re-read earlier files. Non-trivial: operator with >=2 terms and at least one of {non-real coefficient, "
+    "constant term, multi-digit index, exponent-format/tiny/large coefficient}; artefact with >=2 elements and at "
+    "least one optional part (frames, complex values, precision, nesting); history with a change between two "
+    "observations. distinct = distinct canonical case strings"
 )
 ASSUMPTIONS = [
     "coefficient magnitudes avoid the grey zone (1e-10, 1e-6) around the library's 1e-8 zero tolerance; "
@@ -40,7 +48,15 @@ ASSUMPTIONS = [
     "'no frames' compares equal whether spelled None or []",
     "arrays whose shape has a zero-length axis followed by further axes are outside the workload "
     "(nested JSON lists cannot carry that shape); frames are N x N with N >= 1",
-    "paths are str; pathlib paths are not given to loaders (several loaders only test isinstance(file, str))",
+    "paths given to loaders are str; pathlib paths are not given to loaders (several loaders only test "
+    "isinstance(file, str)); savers annotated AnyPath (and load_nmeas_estimate) also get pathlib and bytes paths",
+    "a caller-opened file is opened as ascii / latin-1 only when the file holds ASCII bytes only",
+    "integer arrays stay within int64 (a uint64 array mixing values >= 2**63 with smaller ones comes back as "
+    "rounded floats on the unchanged tree: numpy's dtype inference on the parsed list; observed, not judged); "
+    "no dtype is demanded of a loaded array, its shape and its values (compared exactly as Python "
+    "numbers) are",
+    "histories: after every change the expectation is what the object's public attributes show at the time of the "
+    "next conversion / save; a file keeps denoting what was written to it last",
 ]
 DECIDING = [
     "convert_op_to_dict", "convert_dict_to_op", "save_operator", "load_operator",
@@ -71,7 +87,7 @@ _MAXQ = 7  # widest operator (distinct qubits) compared as a dense matrix
 
 def classes(tier):
     return ["op_dict", "op_file", "op_text", "measurements", "expvals", "parities",
-            "value_estimate", "lists", "layouts", "nmeas", "arrays"]
+            "value_estimate", "lists", "layouts", "nmeas", "arrays", "history"]
 
 
 # ============================================================================ canonical values
@@ -608,7 +624,7 @@ def rand_coeff(rng, style=None):
     """(value, style); Python int/float/complex only"""
     style = style or rng.choice(
         ["int", "float", "float", "short", "complex", "complex", "zero_imag", "imag", "negzero_real",
-         "expfmt", "tiny", "tiny_part", "large", "zero"])
+         "expfmt", "tiny", "tiny_part", "large", "zero", "npfloat"])
     s = rng.choice([-1, 1])
     if style == "int":
         v = s * rng.randint(1, 50)
@@ -638,6 +654,10 @@ def rand_coeff(rng, style=None):
                         complex(rng.uniform(1e9, 6e14), -rng.uniform(1e9, 6e14)), 2**49 + 1, 999999999999999.9])
     elif style == "zero":
         v = rng.choice([0, 0.0, -0.0, 0j, complex(-0.0, -0.0)])
+    elif style == "npfloat":  # numpy's float / complex subclasses
+        v = rng.choice([np.float64(rng.uniform(-10, 10) or 1.0), np.float64(s * 2.5e-05),
+                        np.complex128(complex(rng.uniform(-5, 5) or 1.0, rng.uniform(-5, 5) or 1.0)),
+                        np.complex128(complex(0.0, s * 1.5)), np.complex128(complex(s * 0.75, 0.0))])
     else:
         raise ValueError(style)
     return v, style
@@ -667,11 +687,11 @@ def build_term(PauliTerm, rng, ops, coeff):
     return PauliTerm(d, coeff)
 
 
-def rand_operator(rng, PauliTerm, PauliSum, kinds=None):
+def rand_operator(rng, PauliTerm, PauliSum, kinds=None, pool=None, max_terms=6):
     """returns (operator, spec) where spec lists (coefficient, style, ops) per term"""
     kind = rng.choice(kinds or ["term", "term", "sum_simplified", "sum_simplified", "sum_raw", "sum_raw",
                                 "constant", "empty", "sum_with_constant"])
-    pool = rand_pool(rng)
+    pool = pool or rand_pool(rng)
     spec = []
     if kind == "empty":
         return (PauliSum() if rng.random() < 0.5 else PauliSum([])), ("empty", spec)
@@ -685,7 +705,7 @@ def rand_operator(rng, PauliTerm, PauliSum, kinds=None):
         spec.append((c, st, {}))
         t = PauliTerm("I0", c) if rng.random() < 0.5 else PauliTerm({}, c)
         return (t if rng.random() < 0.5 else PauliSum([t])), (kind, spec)
-    n = rng.randint(1, 6)
+    n = rng.randint(1, max_terms)
     terms = []
     used = set()
     for i in range(n):
@@ -706,16 +726,24 @@ def rand_operator(rng, PauliTerm, PauliSum, kinds=None):
                 continue
             used.add(frozenset(ops.items()))
             st = rng.choice(["int", "float", "float", "short", "complex", "complex", "zero_imag", "imag",
-                             "negzero_real", "expfmt", "tiny_part", "large"])
+                             "negzero_real", "expfmt", "tiny_part", "large", "npfloat"])
             c, st = rand_coeff(rng, st)
         spec.append((c, st, ops))
         terms.append(build_term(PauliTerm, rng, ops, c))
+        if kind == "sum_raw" and rng.random() < 0.08:  # the identical term object once more
+            spec.append((c, st, ops))
+            terms.append(terms[-1])
     if kind == "sum_with_constant":
         c, st = rand_coeff(rng, rng.choice(["int", "float", "complex", "imag", "expfmt", "large", "short"]))
         spec.insert(0, (c, st, {}))
         terms.insert(0, PauliTerm({}, c))
         if rng.random() < 0.5:
-            rng.shuffle(terms)
+            order = list(range(len(terms)))
+            rng.shuffle(order)
+            terms = [terms[i] for i in order]
+            spec = [spec[i] for i in order]
+    if rng.random() < 0.15:  # the signature says Sequence[PauliTerm]
+        return PauliSum(tuple(terms)), (kind, spec)
     return PauliSum(terms), (kind, spec)
 
 
@@ -739,9 +767,40 @@ def spec_nontrivial(spec):
     return len(terms) >= 2 and bool(feats)
 
 
+BIG_INTS = [2**53 + 1, 2**53 - 1, 2**53 + 2, 2**60 + 3, 2**62 + 12345, 2**63 - 1, 2**31 + 1, 2**32, 10**18 + 7,
+            2**24 + 1, 2**56 + 2**29 + 1]
+
+
+def rand_big_int(rng, signed=True):
+    r = rng.random()
+    if r < 0.5:
+        v = rng.choice(BIG_INTS)
+    elif r < 0.8:
+        v = rng.randint(2**53, 2**63 - 1)
+    else:
+        v = rng.randint(0, 1000)
+    if signed and rng.random() < 0.3:
+        v = -v - (1 if v == 2**63 - 1 and rng.random() < 0.5 else 0)
+    return v
+
+
 def rand_values(rng, shape, kind=None):
-    kind = kind or rng.choice(["float", "float", "int", "complex", "complex", "zero_imag", "special"])
+    kind = kind or rng.choice(["float", "float", "int", "complex", "complex", "zero_imag", "special", "bigint",
+                               "narrow"])
     n = int(np.prod(shape)) if shape else 1
+    if kind == "bigint":  # exact integers beyond 2**53, within one integer dtype
+        sub = rng.choice(["int64", "int64", "count"])
+        a = np.array([rand_big_int(rng, signed=sub == "int64") for _ in range(n)], dtype=np.int64)
+        return a.reshape(shape), f"bigint-{sub}"
+    if kind == "narrow":  # narrow dtypes; every value is exact in the dtype
+        dt = rng.choice(["int8", "uint8", "int32", "float32", "float16", "complex64"])
+        if dt == "complex64":
+            a = np.array([complex(rng.randint(-8, 8) / 4, rng.randint(-8, 8) / 8) for _ in range(n)], dtype=dt)
+        elif dt.startswith("float"):
+            a = np.array([rng.randint(-64, 64) / 16 for _ in range(n)], dtype=dt)
+        else:
+            a = np.array([rng.randint(0, 127) for _ in range(n)], dtype=dt)
+        return a.reshape(shape), f"narrow-{dt}"
     if kind == "float":
         flat = [rng.uniform(-1, 1) for _ in range(n)]
         a = np.array(flat, dtype=float)
@@ -768,7 +827,7 @@ def rand_frames(rng, complex_ok=True, extra_axis=None):
     for _ in range(k):
         n = rng.randint(1, 4)
         shape = (n, n) if extra_axis is None else (n, n, extra_axis)
-        a, kd = rand_values(rng, shape, None if complex_ok else rng.choice(["float", "int"]))
+        a, kd = rand_values(rng, shape, None if complex_ok else rng.choice(["float", "int", "bigint"]))
         kinds.add(kd)
         frames.append(a)
     return frames, f"{k}x{sorted(kinds)}"
@@ -790,7 +849,9 @@ def rand_json_value(rng, depth):
 def _tmpdir():
     global _TMP
     if _TMP is None:
-        _TMP = tempfile.mkdtemp(prefix="rv-c11-")
+        # memory-backed when there is one: tens of thousands of small files are written, read and removed
+        shm = "/dev/shm"
+        _TMP = tempfile.mkdtemp(prefix="rv-c11-", dir=shm if os.path.isdir(shm) and os.access(shm, os.W_OK | os.X_OK) else None)
     return _TMP
 
 
@@ -799,16 +860,325 @@ def _lists(frames):
 
 
 def _load(rng, loader, path):
-    """call a loader with a path, an open file or a StringIO"""
-    how = rng.choice(["path", "path", "file", "file", "stringio"])
+    """call a loader with a path, a caller-opened file (several encodings) or a StringIO"""
+    how = rng.choice(["path", "path", "file", "file", "file-enc", "stringio"])
     if how == "path":
         return loader(path), how
     if how == "file":
         with open(path, "r") as f:
             return loader(f), how
+    if how == "file-enc":
+        with open(path, "rb") as f:
+            ascii_only = all(b < 128 for b in f.read())
+        enc = rng.choice(["utf-8", "ascii", "latin-1"]) if ascii_only else "utf-8"
+        with open(path, "r", encoding=enc) as f:
+            return loader(f), how
     with open(path, "r") as f:
         text = f.read()
     return loader(io.StringIO(text)), how
+
+
+def _target(rng, path):
+    """a path as the savers annotated AnyPath may get it: str, pathlib.Path or bytes"""
+    how = rng.choice(["str", "str", "str", "pathlib", "bytes"])
+    if how == "pathlib":
+        return pathlib.Path(path)
+    if how == "bytes":
+        return os.fsencode(path)
+    return path
+
+
+# ---------------------------------------------------------------------------- histories
+MUTATIONS = ("coef", "terms", "edit-dict", "loaded")
+
+
+def op_plan(rng, qubits):
+    """observe, change, observe [, change, observe]: a list of steps (tuples of plain values).
+    observations: ('dict', lib) ('file', path no) ('set', member tokens, path no) ('text', printer, term parser?)
+    changes: ('coef', term no, value) ('terms', 'append'|'drop', in place?, ops, coefficient)
+             ('edit-dict', what) ('loaded',)"""
+    pool = qubits[:4] or [0, 1]
+
+    def obs(prev=None):
+        if prev is not None and rng.random() < 0.55:
+            k = prev[0]
+        else:
+            k = rng.choice(["dict", "dict", "file", "file", "set", "text"])
+        if k == "dict":
+            return ("dict", rng.choice(["json", "rapidjson"]))
+        if k == "file":
+            if prev is not None and prev[0] in ("file", "set") and rng.random() < 0.7:
+                return ("file", prev[-1])  # the same path once more
+            return ("file", rng.choice([0, 1]))
+        if k == "set":
+            toks = [rng.choice(["op", "op", "copy", "other", f"term{rng.randint(0, 5)}"]) for _ in range(rng.randint(0, 3))]
+            toks.insert(rng.randint(0, len(toks)), "op")
+            no = prev[-1] if prev is not None and prev[0] in ("file", "set") and rng.random() < 0.7 else rng.choice([0, 1])
+            return ("set", toks, no)
+        return ("text", rng.choice(["str", "repr", "format"]), rng.random() < 0.7)
+
+    def change(prev):
+        ks = ["coef", "coef", "coef", "terms", "terms"]
+        if prev[0] == "dict":
+            ks += ["edit-dict"] * 5 + ["loaded"]
+        if prev[0] in ("file", "set"):
+            ks += ["loaded"] * 2
+        k = rng.choice(ks)
+        if k == "coef":
+            return ("coef", rng.randint(0, 5), rand_coeff(rng, rng.choice(["int", "float", "short", "complex", "imag",
+                                                                              "expfmt", "large", "npfloat"]))[0])
+        if k == "terms":
+            ops = sorted(rand_ops(rng, pool).items())
+            return ("terms", rng.choice(["append", "append", "drop"]), rng.random() < 0.5, ops,
+                    rand_coeff(rng, rng.choice(["int", "float", "complex", "short"]))[0])
+        if k == "edit-dict":
+            return ("edit-dict", rng.choice(["negate", "negate", "shift", "shift", "strip", "clear"]))
+        return ("loaded",)
+
+    plan = [obs()]
+    for _ in range(rng.choice([1, 1, 1, 2])):
+        plan.append(change(plan[-1]))
+        prev_obs = [s for s in plan if s[0] not in MUTATIONS][-1]
+        plan.append(obs(prev_obs))
+    return plan
+
+
+def _poke(a, x):
+    """a.flat[0] = x in place, with a value the dtype can hold"""
+    if a is None or not getattr(a, "size", 0):
+        return
+    if a.dtype.kind in "fc":
+        a.flat[0] = x
+    elif a.dtype.kind in "iu":
+        a.flat[0] = int(x) if a.dtype.itemsize >= 8 else 7
+    else:
+        a.flat[0] = 1
+
+
+def make_artefact(rng, kind, lib):
+    """one persisted artefact with its save / load / canonical view, a few ways of changing it through its public
+    attributes (reassigning them or modifying them in place), and a way of modifying a loaded copy.
+    Returns a dict: desc, file (bool), observe(path) -> loaded, load(path), cur() -> canonical value now,
+    canon(loaded), check() / check_for(canonical) -> name of the driver check, muts [(text, fn)], scribble(loaded)."""
+    U, LY = lib["U"], lib["LY"]
+    art = {"file": True}
+
+    def std(check, save, loader, cur, canon):
+        art.update(observe=lambda p: (save(_target(rng, p)), _load(rng, loader, p)[0])[1],
+                   load=lambda p: _load(rng, loader, p)[0], cur=cur, canon=canon,
+                   check=lambda: check, check_for=lambda exp: check)
+
+    def bits(n):
+        return tuple(rng.randint(0, 1) for _ in range(n))
+
+    if kind == "measurements":
+        n = rng.randint(1, 5)
+        m = lib["Measurements"]([bits(n) for _ in range(rng.choice([0, 1, 3, 6]))])
+        new = [bits(n) for _ in range(rng.choice([0, 2, 4]))]
+        t1, t2 = bits(n), bits(n)
+        art["desc"] = f"{[''.join(map(str, b)) for b in m.bitstrings]!r}"
+        std("measurements-roundtrip", m.save, lib["Measurements"].load_from_file, lambda: canon_measurements(m),
+            canon_measurements)
+        art["muts"] = [
+            (f"bitstrings = {new!r}", lambda: setattr(m, "bitstrings", new)),
+            (f"bitstrings.append({t1!r})", lambda: m.bitstrings.append(t1)),
+            (f"bitstrings[0] = {t2!r}", lambda: m.bitstrings.__setitem__(0, t2) if m.bitstrings else m.bitstrings.append(t2)),
+            ("del bitstrings[-1]", lambda: m.bitstrings.pop() if m.bitstrings else m.bitstrings.append(t1)),
+        ]
+        art["scribble"] = lambda b: (b.bitstrings.append((1,) * n), setattr(b, "bitstrings", b.bitstrings[::-1]))
+        return art
+
+    if kind in ("expvals", "parities"):
+        nv = rng.choice([1, 2, 3, 4])
+        if kind == "expvals":
+            vals, vk = rand_values(rng, (nv,))
+            new_vals = rand_values(rng, (rng.choice([1, 2, 3]),))[0]
+            corr, ck = rand_frames(rng)
+            cov, _ = rand_frames(rng)
+            new_frames = rand_frames(rng)[0]
+            obj = lib["ExpectationValues"](vals, corr, cov)
+            std("expvals-roundtrip", lambda p: lib["save_expectation_values"](obj, p), lib["load_expectation_values"],
+                lambda: canon_expvals(obj), canon_expvals)
+        else:
+            vals, vk = rand_values(rng, (nv, 2), rng.choice(["int", "int", "bigint", "float"]))
+            new_vals = rand_values(rng, (rng.choice([1, 2, 3]), 2), rng.choice(["int", "bigint"]))[0]
+            corr, ck = rand_frames(rng, complex_ok=False, extra_axis=2)
+            new_frames = rand_frames(rng, complex_ok=False, extra_axis=2)[0]
+            obj = lib["Parities"](vals, corr)
+            std("parities-roundtrip", lambda p: lib["save_parities"](obj, p), lib["load_parities"],
+                lambda: canon_parities(obj), canon_parities)
+        x = rng.choice([0.125, -3.0, 2**53 + 1, 7])
+
+        def poke(a):
+            _poke(a, x)
+
+        def poke_frame(name):
+            fr = getattr(obj, name)
+            if fr:
+                poke(fr[-1])
+            else:
+                setattr(obj, name, new_frames)
+        art["desc"] = f"values={vk}:{vals.tolist()!r} corr={ck}:{_lists(corr)!r}"
+        art["muts"] = [
+            (f"values.flat[0] = {x!r}", lambda: poke(obj.values)),
+            (f"values = {new_vals.tolist()!r}", lambda: setattr(obj, "values", new_vals)),
+            (f"correlations = {_lists(new_frames)!r}", lambda: setattr(obj, "correlations", new_frames)),
+            ("correlations = None", lambda: setattr(obj, "correlations", None)),
+            (f"correlations[-1].flat[0] = {x!r}", lambda: poke_frame("correlations")),
+        ]
+        if kind == "expvals":
+            art["muts"] += [
+                (f"estimator_covariances = {_lists(new_frames)!r}", lambda: setattr(obj, "estimator_covariances", new_frames)),
+                (f"estimator_covariances[-1].flat[0] = {x!r}", lambda: poke_frame("estimator_covariances")),
+            ]
+        art["scribble"] = lambda b: (poke(b.values), setattr(b, "correlations", None if b.correlations else new_frames))
+        return art
+
+    if kind == "value_estimate":
+        v = rng.choice([rng.uniform(-10, 10), 0.0, 3, 2.5, 1e-300, np.float64(rng.uniform(-1, 1))])
+        precisions = [None, 0.0, 0.25, 1e-9, 1, np.float64(0.125), rng.uniform(0, 1)]
+        pr = rng.choice(precisions)
+        ve = U.ValueEstimate(v, pr)
+        news = [q for q in precisions if q is not pr]
+        a, b = rng.choice(news), rng.choice(news)
+        art["desc"] = f"{v!r} precision {pr!r}"
+        std("value-estimate-roundtrip", lambda p: U.save_value_estimate(ve, p), U.load_value_estimate,
+            lambda: canon_value_estimate(ve), canon_value_estimate)
+        art["muts"] = [(f"precision = {a!r}", lambda: setattr(ve, "precision", a)),
+                       (f"precision = {b!r}", lambda: setattr(ve, "precision", b))]
+        art["scribble"] = lambda x: setattr(x, "precision", 123.0)
+        return art
+
+    def group():
+        return tuple(rng.sample(range(0, 40), rng.choice([2, 2, 2, 1, 3, 0])))
+
+    if kind in ("layers", "connectivity"):
+        if kind == "layers":
+            data = [[group() for _ in range(rng.randint(0, 3))] for _ in range(rng.randint(0, 3))]
+            new = [[group() for _ in range(rng.randint(0, 3))] for _ in range(rng.randint(0, 3))]
+            item = [group() for _ in range(rng.randint(0, 2))]
+            obj, attr = LY.CircuitLayers(data), "layers"
+            std("layout-roundtrip", lambda p: LY.save_circuit_layers(obj, os.fsdecode(p)), LY.load_circuit_layers,
+                lambda: canon_layers(obj), canon_layers)
+        else:
+            data = [group() for _ in range(rng.randint(0, 5))]
+            new = [group() for _ in range(rng.randint(0, 5))]
+            item = group()
+            obj, attr = LY.CircuitConnectivity(data), "connectivity"
+            std("layout-roundtrip", lambda p: LY.save_circuit_connectivity(obj, os.fsdecode(p)), LY.load_circuit_connectivity,
+                lambda: canon_connectivity(obj), canon_connectivity)
+        g = group()
+        art["desc"] = f"{data!r}"
+        art["muts"] = [
+            (f"{attr} = {new!r}", lambda: setattr(obj, attr, new)),
+            (f"{attr}.append({item!r})", lambda: getattr(obj, attr).append(item)),
+            (f"{attr}[0] changed ({g!r})", lambda: (getattr(obj, attr)[0].append(g) if kind == "layers"
+                                                      else getattr(obj, attr).__setitem__(0, g))
+             if getattr(obj, attr) else getattr(obj, attr).append(item)),
+        ]
+        art["scribble"] = lambda b: (getattr(b, attr).append(item), getattr(b, attr).reverse())
+        return art
+
+    if kind in ("ordering", "list"):
+        if kind == "ordering":
+            data = rng.sample(range(12), rng.randint(0, 12))
+            v1, v2 = rng.randint(0, 40), rng.randint(0, 40)
+            std("layout-roundtrip", lambda p: LY.save_circuit_ordering(data, os.fsdecode(p)), LY.load_circuit_ordering,
+                lambda: typed(data), typed)
+        else:
+            data = [rand_json_value(rng, 2) for _ in range(rng.choice([0, 1, 3, 5]))]
+            v1, v2 = rand_json_value(rng, 1), rand_json_value(rng, 0)
+            std("list-roundtrip", lambda p: U.save_list(data, p), U.load_list, lambda: typed(data), typed)
+        art["desc"] = f"{data!r}"
+
+        def nested():
+            for x in data:
+                if isinstance(x, list):
+                    x.append(v2)
+                    return
+            data.insert(0, v2)
+        art["muts"] = [
+            (f"append({v1!r})", lambda: data.append(v1)),
+            (f"[0] = {v2!r}", lambda: data.__setitem__(0, v2) if data else data.append(v2)),
+            ("reverse()", lambda: data.reverse() if len(data) >= 2 else data.append(v1)),
+            (f"nested append({v2!r})", nested),
+        ]
+        art["scribble"] = lambda b: (b.append("scribble"), b.reverse())
+        return art
+
+    if kind == "nmeas":
+        s = {"K": rng.choice([rng.uniform(0, 1e4), 17, 0.5, rand_big_int(rng, False)]),
+             "nterms": rng.choice([0, 3, 14, 2**40, rand_big_int(rng, False)]),
+             "frames": rng.choice([None, np.array([rng.uniform(0, 1) for _ in range(rng.randint(1, 4))]),
+                                   np.array([rand_big_int(rng, False) for _ in range(rng.randint(1, 4))], dtype=np.int64)])}
+        k2 = rng.choice([rng.uniform(0, 1e4), 18, rand_big_int(rng, False)])
+        n2 = rng.choice([1, 15, rand_big_int(rng, False)])
+        f2 = rng.choice([None, np.array([rng.randint(0, 10**6) for _ in range(rng.randint(1, 4))]),
+                         np.array([rng.uniform(0, 1) for _ in range(rng.randint(1, 4))])])
+        x = rng.choice([0.5, 2**53 + 1, 12])
+
+        def poke():
+            if s["frames"] is not None and s["frames"].size:
+                _poke(s["frames"], x)
+            else:
+                s["frames"] = f2
+        art["desc"] = f"K={s['K']!r} nterms={s['nterms']!r} frames={None if s['frames'] is None else s['frames'].tolist()!r}"
+        art.update(
+            observe=lambda p: (U.save_nmeas_estimate(s["K"], s["nterms"], _target(rng, p), s["frames"]),
+                               U.load_nmeas_estimate(_target(rng, p)))[1],
+            load=lambda p: U.load_nmeas_estimate(_target(rng, p)),
+            cur=lambda: canon_nmeas(s["K"], s["nterms"], s["frames"]), canon=lambda r: canon_nmeas(*r),
+            check=lambda: "nmeas-roundtrip-noframes" if s["frames"] is None else "nmeas-roundtrip",
+            check_for=lambda exp: "nmeas-roundtrip-noframes" if exp[2] is None else "nmeas-roundtrip")
+        art["muts"] = [
+            (f"nmeas = {k2!r}", lambda: s.__setitem__("K", k2)),
+            (f"nterms = {n2!r}", lambda: s.__setitem__("nterms", n2)),
+            (f"frame_meas = {None if f2 is None else f2.tolist()!r}", lambda: s.__setitem__("frames", f2)),
+            (f"frame_meas.flat[0] = {x!r}", poke),
+        ]
+
+        def scribble(r):
+            if r[2] is not None and r[2].size:
+                r[2].flat[0] = 5
+        art["scribble"] = scribble
+        return art
+
+    if kind == "array":
+        shape = rng.choice([(1,), (3,), (5,), (2, 2), (3, 1), (2, 3, 2)])
+        s = {"a": rand_values(rng, shape)[0], "d": None}
+        a2 = rand_values(rng, rng.choice([(2,), (2, 2), shape]))[0]
+        x = rng.choice([0.125, -3.0, 2**53 + 1, 7])
+        via = rng.choice(["json", "rapidjson"])
+
+        def observe(p):
+            d = U.convert_array_to_dict(s["a"])
+            s["d"] = d
+            d2 = json.loads(json.dumps(d)) if via == "json" else lib["rapidjson"].loads(lib["rapidjson"].dumps(d))
+            return U.convert_dict_to_array(d2)
+
+        def poke():
+            _poke(s["a"], x)
+
+        def edit_dict():  # the caller scribbles on the dictionary an earlier conversion returned
+            d = s["d"]
+            if isinstance(d, dict):
+                for k in list(d):
+                    if isinstance(d[k], list) and d[k]:
+                        d[k][0] = [99] if isinstance(d[k][0], list) else 99
+                        d[k].append(d[k][0])
+                d["imag"] = d.get("real")
+        art.update(file=False, desc=f"shape={shape} via {via} {s['a'].tolist()!r}", observe=observe, load=None,
+                   cur=lambda: canon_array(s["a"]), canon=canon_array, check=lambda: "array-roundtrip",
+                   check_for=lambda exp: "array-roundtrip")
+        art["muts"] = [
+            (f"array.flat[0] = {x!r}", poke),
+            (f"array = {a2.tolist()!r}", lambda: s.__setitem__("a", a2)),
+            ("earlier dictionary edited in place", edit_dict),
+            ("earlier dictionary edited in place, then " + f"array.flat[0] = {x!r}", lambda: (edit_dict(), poke())),
+        ]
+        art["scribble"] = lambda b: None
+        return art
+    raise ValueError(kind)
 
 
 def _roundtrip(ctx, name, do, equal, what):
@@ -839,8 +1209,12 @@ def run_case(ctx):
 
     rng = ctx.rng
     cls = ctx.cls
+    if cls == "history":  # one class (a history costs 2-3 single round trips): half operators, half other artefacts
+        cls = "op_history" if rng.random() < 0.5 else "artefact_history"
     _SHADOW.clear()
-    path = os.path.join(_tmpdir(), f"{cls}-{ctx.index}.json")
+    suffix = rng.choice(["", "", "", "-\u00e9", " \u00fcn\u00ef-\u03b1"])
+    path = os.path.join(_tmpdir(), f"{cls}-{ctx.index}{suffix}.json")
+    path2 = os.path.join(_tmpdir(), f"{cls}-{ctx.index}{suffix}-b.json")
 
     def ops_equal(exp, mode):
         def eq(back):
@@ -848,7 +1222,10 @@ def run_case(ctx):
                 got = canon_op(back)
             except Exception as e:
                 return f"result {back!r} is not an operator ({e!r})"
-            return compare_ops(exp, got, mode)
+            try:
+                return compare_ops(exp, got, mode)
+            except NotInDomain:  # the generators keep exp within _MAXQ qubits: the result acts on qubits exp does not have
+                return f"result {got!r} acts on other qubits than {exp!r}"
         return eq
 
     try:
@@ -877,7 +1254,7 @@ def run_case(ctx):
                 exp = canon_op(op)
 
                 def do():
-                    save_operator(op, path)
+                    save_operator(op, _target(rng, path))
                     with open(path) as f:
                         json.load(f)
                     return _load(rng, load_operator, path)[0]
@@ -890,7 +1267,7 @@ def run_case(ctx):
                 exps = [canon_op(o) for o in ops]
 
                 def do():
-                    save_operator_set(ops, path)
+                    save_operator_set(ops, _target(rng, path))
                     with open(path) as f:
                         json.load(f)
                     return _load(rng, load_operator_set, path)[0]
@@ -942,7 +1319,7 @@ def run_case(ctx):
                          len(exp) >= 3 and len({tuple(b) for _t, b in exp}) >= 2)
 
             def do():
-                m.save(path)
+                m.save(_target(rng, path))
                 return _load(rng, Measurements.load_from_file, path)[0]
             _roundtrip(ctx, "measurements-roundtrip", do,
                        lambda b: None if canon_measurements(b) == exp else f"loaded {canon_measurements(b)!r}", repr(exp)[:300])
@@ -961,7 +1338,7 @@ def run_case(ctx):
                          nv >= 2 and (bool(corr) or bool(cov) or np.iscomplexobj(vals)))
 
             def do():
-                save_expectation_values(ev, path)
+                save_expectation_values(ev, _target(rng, path))
                 return _load(rng, load_expectation_values, path)[0]
             _roundtrip(ctx, "expvals-roundtrip", do,
                        lambda b: None if canon_expvals(b) == exp else f"loaded {canon_expvals(b)!r}", repr(exp)[:400])
@@ -970,15 +1347,19 @@ def run_case(ctx):
         if cls == "parities":
             nterms = rng.randint(1, 5)
             values = np.array([[rng.randint(0, 500), rng.randint(0, 500)] for _ in range(nterms)], dtype=int)
-            if rng.random() < 0.2:
+            tk = rng.random()
+            if tk < 0.2:
                 values = values.astype(float)
+            elif tk < 0.45:  # tallies beyond 2**53 (exact integers)
+                values = np.array([[rand_big_int(rng, False), rand_big_int(rng, False)] for _ in range(nterms)],
+                                  dtype=np.int64)
             corr, ck = rand_frames(rng, complex_ok=False, extra_axis=2)
             p = Parities(values, corr)
             exp = canon_parities(p)
             ctx.describe(f"parities {values.tolist()} corr={ck}:{_lists(corr)!r}"[:600], nterms >= 2 and bool(corr))
 
             def do():
-                save_parities(p, path)
+                save_parities(p, _target(rng, path))
                 return _load(rng, load_parities, path)[0]
             _roundtrip(ctx, "parities-roundtrip", do,
                        lambda b: None if canon_parities(b) == exp else f"loaded {canon_parities(b)!r}", repr(exp)[:400])
@@ -993,7 +1374,7 @@ def run_case(ctx):
             ctx.describe(f"value_estimate {type(v).__name__} {v!r} precision {type(pr).__name__} {pr!r}", pr is not None)
 
             def do():
-                U.save_value_estimate(ve, path)
+                U.save_value_estimate(ve, _target(rng, path))
                 return _load(rng, U.load_value_estimate, path)[0]
             _roundtrip(ctx, "value-estimate-roundtrip", do,
                        lambda b: None if canon_value_estimate(b) == exp else f"loaded {canon_value_estimate(b)!r}", repr(exp))
@@ -1006,7 +1387,7 @@ def run_case(ctx):
             ctx.describe(f"list {lst!r}"[:600], len(lst) >= 2 and any(isinstance(x, (list, dict)) and x for x in lst))
 
             def do():
-                U.save_list(lst, path)
+                U.save_list(lst, _target(rng, path))
                 return _load(rng, U.load_list, path)[0]
             _roundtrip(ctx, "list-roundtrip", do, lambda b: None if typed(b) == exp else f"loaded {b!r}", repr(lst)[:400])
             return
@@ -1049,15 +1430,18 @@ def run_case(ctx):
             return
 
         if cls == "nmeas":
-            K = rng.choice([rng.uniform(0, 1e4), 0.5646124437984263, 0, 17, 1e-300, 1e15])
-            nterms = rng.choice([0, 1, 14, 2**40])
-            fk = rng.choice(["none", "none", "floats", "floats", "ints", "empty", "kw"])
+            K = rng.choice([rng.uniform(0, 1e4), 0.5646124437984263, 0, 17, 1e-300, 1e15, rand_big_int(rng, False),
+                            2**64 + 1])
+            nterms = rng.choice([0, 1, 14, 2**40, rand_big_int(rng, False), 2**64 + 1])
+            fk = rng.choice(["none", "none", "floats", "floats", "ints", "bigints", "empty", "kw"])
             if fk == "none":
                 frames = None
             elif fk == "empty":
                 frames = np.array([])
             elif fk == "ints":
                 frames = np.array([rng.randint(0, 10**6) for _ in range(rng.randint(1, 6))])
+            elif fk == "bigints":
+                frames = np.array([rand_big_int(rng, False) for _ in range(rng.randint(1, 6))], dtype=np.int64)
             else:
                 frames = np.array([rng.uniform(0, 1) for _ in range(rng.randint(1, 6))])
             exp = canon_nmeas(K, nterms, frames)
@@ -1067,12 +1451,12 @@ def run_case(ctx):
 
             def do():
                 if frames is None and rng.random() < 0.5:
-                    U.save_nmeas_estimate(K, nterms, path)
+                    U.save_nmeas_estimate(K, nterms, _target(rng, path))
                 elif fk == "kw":
-                    U.save_nmeas_estimate(nmeas=K, nterms=nterms, filename=path, frame_meas=frames)
+                    U.save_nmeas_estimate(nmeas=K, nterms=nterms, filename=_target(rng, path), frame_meas=frames)
                 else:
-                    U.save_nmeas_estimate(K, nterms, path, frames)
-                return U.load_nmeas_estimate(path)
+                    U.save_nmeas_estimate(K, nterms, _target(rng, path), frames)
+                return U.load_nmeas_estimate(_target(rng, path))
 
             def eq(b):
                 try:
@@ -1097,10 +1481,236 @@ def run_case(ctx):
             _roundtrip(ctx, "array-roundtrip", do, lambda b: None if canon_array(b) == exp else f"came back {canon_array(b)!r}",
                        repr(exp)[:400])
             return
+        if cls == "op_history":
+            # narrow operators with few terms: what matters here is the order of calls, not the operator
+            pool = rng.sample(SMALL_Q, rng.randint(1, 3)) if rng.random() < 0.7 else rng.sample(SMALL_Q + BIG_Q, 3)
+            op, spec = rand_operator(rng, PauliTerm, PauliSum, pool=pool, max_terms=4,
+                                     kinds=["term", "sum_simplified", "sum_simplified", "sum_raw", "sum_with_constant",
+                                            "constant"])
+            plan = op_plan(rng, sorted({q for t in op.terms for q, _ in t.operations}))
+            other, ospec = None, ("none", [])
+            if any(st[0] == "set" and "other" in st[1] for st in plan):
+                other, ospec = rand_operator(rng, PauliTerm, PauliSum, pool=pool, max_terms=3)
+            ctx.describe(f"op_history {spec_text(spec)} other {spec_text(ospec)} steps {plan!r}"[:600],
+                         len(op.terms) >= 1 and any(st[0] in MUTATIONS for st in plan))
+            paths = [path, path2]
+            written = {}  # path -> ("single", canon) | ("set", [canon])
+            st8 = {"d": None, "d_exp": None, "back": None, "source": None}
+
+            def set_equal(exps):
+                def eq(back):
+                    if not isinstance(back, list) or len(back) != len(exps):
+                        return f"{len(exps)} operators saved, loaded {back!r}"
+                    for i, (e, b) in enumerate(zip(exps, back)):
+                        why = ops_equal(e, "lib")(b)
+                        if why:
+                            return f"operator {i}: {why}"
+                    return None
+                return eq
+
+            def read_again(p, what):
+                kind, exp = written[p]
+                if kind == "single":
+                    return _roundtrip(ctx, "op-file-roundtrip", lambda: _load(rng, load_operator, p)[0],
+                                      ops_equal(exp, "lib"), what)
+                return _roundtrip(ctx, "op-set-roundtrip", lambda: _load(rng, load_operator_set, p)[0],
+                                  set_equal(exp), what)
+
+            for no, step in enumerate(plan):
+                what = f"step {no} {step!r} of {spec_text(spec)}"
+                kind = step[0]
+                nterms = len(op.terms)
+                ctx.mon.note(f"history-step:{kind}")
+                if kind == "dict":
+                    exp = canon_op(op)
+
+                    def do():
+                        d = convert_op_to_dict(op)
+                        d2 = json.loads(json.dumps(d)) if step[1] == "json" else rapidjson.loads(rapidjson.dumps(d))
+                        st8.update(d=d, d_exp=exp, source=("dict", d2, exp))
+                        return convert_dict_to_op(d2)
+                    st8["back"] = _roundtrip(ctx, "op-dict-roundtrip", do, ops_equal(exp, "lib"), what)
+                elif kind == "file":
+                    exp = canon_op(op)
+                    p = paths[step[1]]
+
+                    def do():
+                        save_operator(op, _target(rng, p))
+                        written[p] = ("single", exp)
+                        return _load(rng, load_operator, p)[0]
+                    st8["back"] = _roundtrip(ctx, "op-file-roundtrip", do, ops_equal(exp, "lib"), what)
+                    st8["source"] = ("file", p)
+                elif kind == "set":
+                    members = []
+                    for tok in step[1]:
+                        if tok == "op":
+                            members.append(op)
+                        elif tok == "copy":
+                            members.append(PauliSum(list(op.terms)))
+                        elif tok == "other":
+                            members.append(other)
+                        else:  # a sum sharing one term object with op
+                            members.append(PauliSum([op.terms[int(tok[4:]) % nterms]]) if nterms else op)
+                    exps = [canon_op(m) for m in members]
+                    p = paths[step[2]]
+
+                    def do():
+                        save_operator_set(members, _target(rng, p))
+                        written[p] = ("set", exps)
+                        return _load(rng, load_operator_set, p)[0]
+                    st8["back"] = _roundtrip(ctx, "op-set-roundtrip", do, set_equal(exps), what)
+                    st8["source"] = ("file", p)
+                elif kind == "text":
+                    exp = canon_op(op)
+                    name = "op-text-roundtrip-constant" if _has_constant(exp) else "op-text-roundtrip"
+
+                    def do():
+                        text = str(op) if step[1] == "str" else repr(op) if step[1] == "repr" else f"{op}"
+                        return PauliTerm(text) if isinstance(op, PauliTerm) and step[2] else PauliSum(text)
+                    _roundtrip(ctx, name, do, ops_equal(exp, "text"), what)
+                elif kind == "coef":
+                    if nterms:
+                        op.terms[step[1] % nterms].coefficient = step[2]
+                elif kind == "terms":
+                    _how, inplace, ops, c = step[1:]
+                    if isinstance(op, PauliTerm):
+                        op.coefficient = c
+                    elif _how == "append":
+                        t = PauliTerm(dict(ops), c)
+                        if inplace and isinstance(op.terms, list):
+                            op.terms.append(t)
+                        else:
+                            op.terms = list(op.terms) + [t]
+                    elif nterms:
+                        i = len(ops) % nterms
+                        if inplace and isinstance(op.terms, list):
+                            del op.terms[i]
+                        else:
+                            op.terms = [t for j, t in enumerate(op.terms) if j != i]
+                elif kind == "edit-dict":
+                    d, d_exp = st8["d"], st8["d_exp"]
+                    st8["d"] = None
+                    if not isinstance(d, dict) or not isinstance(d.get("terms"), list):
+                        continue
+                    # the caller scribbles on the dictionary an earlier conversion returned
+                    variant = None
+                    try:
+                        if step[1] == "negate":
+                            for td in d["terms"]:
+                                td["coefficient"]["real"] = -td["coefficient"]["real"]
+                            variant = [(ops, complex(-c.real, c.imag)) for ops, c in d_exp]
+                        elif step[1] == "shift":
+                            for td in d["terms"]:
+                                for po in td["pauli_ops"]:
+                                    po["qubit"] += 4
+                            variant = [(tuple((q + 4, o) for q, o in ops), c) for ops, c in d_exp]
+                        elif step[1] == "strip":
+                            for td in d["terms"]:
+                                td["coefficient"].pop("imag", None)
+                                td["pauli_ops"].clear()
+                        else:
+                            d["terms"].clear()
+                    except (KeyError, TypeError, AttributeError):
+                        variant = None  # not the documented dictionary shape: judged by the conversion checks
+                    if variant is not None:
+                        # the edited dictionary is itself a valid dictionary form: it denotes the edited operator
+                        _roundtrip(ctx, "op-dict-roundtrip", lambda: convert_dict_to_op(json.loads(json.dumps(d))),
+                                   ops_equal(variant, "lib"), what)
+                elif kind == "loaded":
+                    back, source = st8["back"], st8["source"]
+                    st8["back"] = None
+                    if back is None or source is None:
+                        continue
+                    # the caller modifies what an earlier load / conversion returned, then reads the same source again
+                    for b in (back if isinstance(back, list) else [back]):
+                        try:
+                            for t in b.terms:
+                                t.coefficient = 99
+                            if isinstance(b.terms, list):
+                                b.terms.clear()
+                        except AttributeError:
+                            pass
+                    if isinstance(back, list):
+                        back.clear()
+                    if source[0] == "file":
+                        read_again(source[1], what)
+                    else:
+                        _roundtrip(ctx, "op-dict-roundtrip", lambda: convert_dict_to_op(source[1]),
+                                   ops_equal(source[2], "lib"), what)
+                else:
+                    raise ValueError(kind)
+            last = st8["source"][1] if st8["source"] is not None and st8["source"][0] == "file" else None
+            for p in sorted(written):  # every file still denotes what was written to it last
+                if p != last or rng.random() < 0.25:
+                    read_again(p, f"reading {os.path.basename(p)} again at the end of {spec_text(spec)}")
+            return
+
+        if cls == "artefact_history":
+            kind = rng.choice(["measurements", "expvals", "expvals", "parities", "parities", "value_estimate", "layers",
+                               "connectivity", "ordering", "list", "nmeas", "nmeas", "array", "array"])
+            art = make_artefact(rng, kind, {
+                "Measurements": Measurements, "ExpectationValues": ExpectationValues, "Parities": Parities,
+                "save_expectation_values": save_expectation_values, "load_expectation_values": load_expectation_values,
+                "save_parities": save_parities, "load_parities": load_parities, "U": U, "LY": LY,
+                "rapidjson": rapidjson})
+            nmut = rng.choice([1, 1, 2])
+            chosen = [rng.randrange(len(art["muts"])) for _ in range(nmut)]
+            same_path = [rng.random() < 0.6 for _ in range(nmut)]
+            scribble = rng.random() < 0.4
+            ctx.describe(f"artefact_history {kind} {art['desc']} changes {[art['muts'][i][0] for i in chosen]!r} "
+                         f"same_path={same_path} scribble={scribble}"[:600], True)
+            written = {}
+
+            def observe(p, what):
+                exp = art["cur"]()
+
+                def do():
+                    back = art["observe"](p)
+                    if art["file"]:
+                        written[p] = exp
+                    return back
+
+                def eq(b):
+                    try:
+                        got = art["canon"](b)
+                    except Exception as e:
+                        return f"loaded {b!r} ({e!r})"
+                    return None if got == exp else f"loaded {got!r}"
+                return _roundtrip(ctx, art["check"](), do, eq, f"{what}: {exp!r}"[:400])
+
+            def read_again(p, what):
+                exp = written[p]
+
+                def eq(b):
+                    try:
+                        got = art["canon"](b)
+                    except Exception as e:
+                        return f"loaded {b!r} ({e!r})"
+                    return None if got == exp else f"loaded {got!r}"
+                return _roundtrip(ctx, art["check_for"](exp), lambda: art["load"](p), eq, f"{what}: {exp!r}"[:400])
+
+            ctx.mon.note(f"artefact-history:{kind}")
+            p = path
+            back = observe(p, f"{kind} first")
+            for i, same in zip(chosen, same_path):
+                art["muts"][i][1]()
+                p = p if same else (path2 if p == path else path)
+                back = observe(p, f"{kind} after {art['muts'][i][0]}")
+            if scribble and back is not None and art["file"]:
+                try:
+                    art["scribble"](back)
+                except (AttributeError, TypeError, ValueError, IndexError):
+                    pass
+                read_again(p, f"{kind} read again after the loaded object was modified")
+            for q in sorted(written):
+                if q != p or (not scribble and rng.random() < 0.25):
+                    read_again(q, f"{kind} reading {os.path.basename(q)} again at the end")
+            return
         raise ValueError(cls)
     finally:
-        if os.path.exists(path):
-            os.remove(path)
+        for f in (path, path2):
+            if os.path.exists(f):
+                os.remove(f)
 
 
 def finish(mon, res):
